@@ -36,3 +36,21 @@ package orbiter
 //@   modifies mapof(in.Orbiters.adapter.router.routes), route_id, in.Orbiters.adapter.router, in.Orbiters.adapter.router.sealed
 //@   loop 0 unroll 2
 //@   ensures[C05] mapHas(theAdapter(in).router.routes, core.PROTOCOL_IBC) && isIBCAdapter(mapGet(theAdapter(in).router.routes, core.PROTOCOL_IBC))
+
+// InjectForwardingControllers / InjectActionControllers (C05): each outgoing route is served by the controller built
+// for it - the forwarder's route of PROTOCOL_CCTP is the CCTP controller, of PROTOCOL_HYPERLANE the Hyperlane
+// controller, of PROTOCOL_INTERNAL the internal one; the executor's route of ACTION_FEE is the fee controller.
+//@ macro fwdRoutes(in) = in.Orbiters.forwarder.router.routes
+//@ func InjectForwardingControllers(in)
+//@   requires[inv] in.Orbiters != nil && in.Orbiters.forwarder != nil && in.Orbiters.forwarder.logger != nil && in.Orbiters.forwarder.router != nil && in.Orbiters.forwarder.router.routes != nil
+//@   modifies mapof(in.Orbiters.forwarder.router.routes), route_id, in.Orbiters.forwarder.router, in.Orbiters.forwarder.router.sealed
+//@   loop 0 unroll 4
+//@   ensures[C05] mapHas(fwdRoutes(in), core.PROTOCOL_CCTP) && isCCTPCtl(mapGet(fwdRoutes(in), core.PROTOCOL_CCTP))
+//@   ensures[C05] mapHas(fwdRoutes(in), core.PROTOCOL_HYPERLANE) && isHypCtl(mapGet(fwdRoutes(in), core.PROTOCOL_HYPERLANE))
+//@   ensures[C05] mapHas(fwdRoutes(in), core.PROTOCOL_INTERNAL) && isIntCtl(mapGet(fwdRoutes(in), core.PROTOCOL_INTERNAL))
+//@ macro actRoutes(in) = in.Orbiters.executor.router.routes
+//@ func InjectActionControllers(in)
+//@   requires[inv] in.Orbiters != nil && in.Orbiters.executor != nil && in.Orbiters.executor.logger != nil && in.Orbiters.executor.eventService != nil && in.Orbiters.executor.router != nil && in.Orbiters.executor.router.routes != nil
+//@   modifies mapof(in.Orbiters.executor.router.routes), route_id, in.Orbiters.executor.router, in.Orbiters.executor.router.sealed
+//@   loop 0 unroll 2
+//@   ensures[C05] mapHas(actRoutes(in), core.ACTION_FEE) && isFeeCtl(mapGet(actRoutes(in), core.ACTION_FEE))
